@@ -18,6 +18,7 @@ func init() {
 	verifRegister("verifC15HandleConn", verifC15HandleConn)
 	verifRegister("verifC15TwoPeers", verifC15TwoPeers)
 	verifRegister("verifC15CloseWithFullQueue", verifC15CloseWithFullQueue)
+	verifRegister("verifC15RemoveThenGet", verifC15RemoveThenGet)
 }
 
 type verifListener struct {
@@ -294,5 +295,41 @@ func verifC15CloseWithFullQueue() {
 	verifAssert(c1.closed >= 1 && (c2 == nil || c2.closed >= 1), "Close-closes-every-TCP-connection")
 	verifAssert(verifQuiesce() == 0, "Close-returns-only-after-the-reader-goroutines-ended")
 	_ = ended.Load()
+	verifReach("done")
+}
+
+// Interleavings of RemoveConnByUfrag and GetConnByUfrag: the agent asks for a
+// ufrag's packet conn, removes the ufrag and asks again (restart with the same
+// ufrag, or a new agent reusing it). The close watcher of the FIRST conn runs
+// at any moment: it must not unregister or close the second one. Afterwards a
+// peer naming the ufrag is attached to the conn the agent holds. Close returns.
+func verifC15RemoveThenGet() {
+	lst := &verifListener{ch: make(chan net.Conn, 1), addr: &net.TCPAddr{IP: net.IPv4(10, 0, 0, 1).To4(), Port: 4000}}
+	m := NewTCPMuxDefault(TCPMuxParams{Listener: lst, Logger: verifNopLogger{}, ReadBufferSize: 8, AliveDurationForConnFromStun: 400 * time.Millisecond})
+	localIP := net.IPv4(10, 0, 0, 1).To4()
+	h1, err := m.GetConnByUfrag("u0", false, localIP)
+	verifAssert(err == nil && h1 != nil, "GetConnByUfrag-ok")
+	first := verifUnderlyingTCP(h1)
+	m.RemoveConnByUfrag("u0")
+	for n := verifChoice(3); n > 0; n-- {
+		runtime.Gosched()
+	}
+	h2, err := m.GetConnByUfrag("u0", false, localIP)
+	verifAssert(err == nil && h2 != nil, "GetConnByUfrag-after-removal-ok")
+	second := verifUnderlyingTCP(h2)
+	verifAssert(second != nil && second != first, "a-fresh-packet-conn-after-removal")
+	verifLetOthersRun() // every woken watcher has run
+	m.mu.Lock()
+	still := m.connsIPv4["u0"][ipAddr(localIP.String())]
+	m.mu.Unlock()
+	verifAssertKnown(still == second, "the-first-conn's-close-watcher-does-not-unregister-its-successor", "C15-stale-watcher-removes-successor", true)
+	closed := false
+	select {
+	case <-second.CloseChannel():
+		closed = true
+	default:
+	}
+	verifAssertKnown(!closed, "the-successor-is-not-closed-by-the-first-conn's-watcher", "C15-stale-watcher-removes-successor", true)
+	verifAssert(m.Close() == nil, "mux-close-ok")
 	verifReach("done")
 }
